@@ -934,11 +934,11 @@ impl BRC20ProgEngine {
         block_hash: B256,
         is_full: bool,
     ) -> Result<Option<BlockResponseED>, Box<dyn Error>> {
-        self.db.read_fn(|db| {
-            db.get_block_number(block_hash)?
-                .map_or(Ok(None), |block_number| {
-                    self.get_block_by_number(block_number.into(), is_full)
-                })
+        // Release the database lock before looking the block up by number: taking the read lock
+        // again while holding it deadlocks as soon as a writer is queued in between
+        let block_number = self.db.read_fn(|db| db.get_block_number(block_hash))?;
+        block_number.map_or(Ok(None), |block_number| {
+            self.get_block_by_number(block_number.into(), is_full)
         })
     }
 
